@@ -432,9 +432,14 @@ class RemoteWorker(Worker, metaclass=RemoteWorkerMeta):
         try:
             self._result = recv_msg(self._socket, comment='data: result')
             logger.debug('Result received')
-        except Exception: # connection closed, or a result that cannot be rebuilt on this side
+        except ConnectionClosedError:
             self._result = (False, None)
             logger.debug('Connection to the child has been closed before receiving the result')
+        except Exception: # a result that cannot be rebuilt on this side: its message has been consumed, the user state follows it as usual
+            self._result = (False, None)
+            logger.debug('The result could not be received', exc_info=1)
+            self._user_state = recv_msg(self._socket, comment='data: user state')
+            logger.debug('User state received')
         else:
             self._user_state = recv_msg(self._socket, comment='data: user state')
             logger.debug('User state received')
